@@ -73,6 +73,8 @@ def cases(tier, seed, phase):
                     vs.append(v)
                     for verd in vs:
                         yield {'cfg': ci, 'lines': [l.hex() for l in lines], 'verdicts': verd}
+    for j in range(600 if tier == 'quick' else 12000):
+        yield (lambda j=j: gen_edge_case(rng_for(seed, 'c07e', j)))
     for j in range(3000 if tier == 'quick' else 60000):
         def mk(j=j):
             rng = rng_for(seed, 'c07r', j)
@@ -81,6 +83,121 @@ def cases(tier, seed, phase):
             verd = [rng.choice([None, None, None, None, 450, 550, 250, 421, 221]) for _ in range(n + 3)]
             return {'cfg': rng.randrange(len(CONFIGS)), 'lines': [l.hex() for l in lines], 'verdicts': verd}
         yield mk
+
+
+def gen_edge_case(rng):
+    """A session for the real SmtpEdge (SmtpSession + Server): several transactions, some refused at the content stage."""
+    script = [['EHLO']]
+    k = 0
+    for _ in range(rng.randint(1, 4)):
+        k += 1
+        script.append(['MAIL', 's%d@example.com' % k])
+        for j in range(rng.choice([0, 1, 1, 2, 3])):
+            script.append(['RCPT', 'r%d.%d@example.com' % (k, j)])
+        r = rng.random()
+        if r < 0.75:
+            script.append(['DATA', rng.choice(['short', 'short', 'long'])])
+        elif r < 0.85:
+            script.append(['RSET'])
+        elif r < 0.92:
+            script.append(['EHLO'])
+        if rng.random() < 0.2:
+            script.append(['NOOP'])
+    script.append(['QUIT'])
+    return {'kind': 'edge', 'script': script, 'maxsize': rng.choice([None, 40, 40]),
+            'reject_data_at': rng.choice([None, None, 1, 2]), 'reject_data_code': rng.choice(['550', '450']),
+            'reject_rcpt': rng.choice([None, None, 'r1.0@example.com', 'r2.1@example.com'])}
+
+
+BODIES = {'short': b'Subject: s\r\n\r\nhi\r\n', 'long': b'Subject: long one\r\n\r\n' + b'0123456789' * 6 + b'\r\n'}
+
+
+def run_edge(case, model):
+    """Black-box oracle over replies: what the queue is handed must be exactly the sender and the recipients accepted (250) since the
+    last reset, for every message answered 250; nothing else ever reaches the queue."""
+    import gevent
+    from slimta.edge.smtp import SmtpEdge, SmtpValidators
+    from harness.fakes.sock import ScriptSocket, WouldBlock
+    got = []
+
+    class Q(object):
+        def enqueue(self, envelope):
+            got.append((envelope.sender, list(envelope.recipients)))
+            return [(envelope, 'id%d' % len(got))]
+    counters = {'data': 0}
+
+    class V(SmtpValidators):
+        def handle_rcpt(self, reply, recipient, params):
+            if recipient == case['reject_rcpt']:
+                reply.code = '550'
+                reply.message = '5.1.1 no such user'
+
+        def handle_have_data(self, reply, data):
+            counters['data'] += 1
+            if counters['data'] == case['reject_data_at']:
+                reply.code = case['reject_data_code']
+                reply.message = '%s.6.0 content refused' % case['reject_data_code'][0]
+    lines = []
+    for c in case['script']:
+        if c[0] == 'EHLO':
+            lines.append(b'EHLO client.example\r\n')
+        elif c[0] == 'MAIL':
+            lines.append(b'MAIL FROM:<%s>\r\n' % c[1].encode())
+        elif c[0] == 'RCPT':
+            lines.append(b'RCPT TO:<%s>\r\n' % c[1].encode())
+        elif c[0] == 'DATA':
+            lines.append(b'DATA\r\n' + BODIES[c[1]] + b'.\r\n')
+        else:
+            lines.append(c[0].encode() + b'\r\n')
+    sock = ScriptSocket([b''.join(lines)], eof=True)
+    edge = SmtpEdge(None, Q(), max_size=case['maxsize'], validator_class=V, hostname='edge.example')
+    try:
+        edge.handle(sock, ('127.0.0.1', 40000))
+    except WouldBlock:
+        pass
+    # replies, in order
+    codes = []
+    for l in b''.join(sock.sent).split(b'\r\n'):
+        if len(l) >= 4 and l[:3].isdigit() and l[3:4] == b' ':
+            codes.append(l[:3].decode())
+    it = iter(codes)
+    hits = []
+    exp = []
+    sender, rcpts = None, []
+    try:
+        next(it)        # banner
+        for c in case['script']:
+            r = next(it)
+            if c[0] == 'EHLO':
+                if r == '250':
+                    sender, rcpts = None, []
+            elif c[0] == 'MAIL':
+                if r == '250':
+                    sender, rcpts = c[1], []
+            elif c[0] == 'RCPT':
+                if r == '250':
+                    rcpts.append(c[1])
+            elif c[0] == 'RSET':
+                if r == '250':
+                    sender, rcpts = None, []
+            elif c[0] == 'DATA':
+                if r == '354':
+                    r2 = next(it)
+                    if r2 == '250':
+                        exp.append((sender, list(rcpts)))
+                    sender, rcpts = None, []
+                else:
+                    for _ in range(BODIES[c[1]].count(b'\r\n') + 1):
+                        next(it)       # the body lines were taken for (unknown) commands: one reply each
+    except StopIteration:
+        hits.append(hit('c07.edge.fewer-replies-than-commands', 'the edge session produced fewer replies than command lines', observed=codes[-6:]))
+    if not hits and got != exp:
+        hits.append(hit('c07.edge.queue-received-other-envelope', 'the queue was handed a sender / recipients other than those accepted since the last '
+                        'reset (or a message that was not answered 250, or none for one that was)', observed=got[:4], expected=exp[:4]))
+    tags = ['edge-session', 'edge-messages=%d' % len(exp)]
+    if any(x in codes for x in ('552', '550', '450')):
+        tags.append('edge-content-or-rcpt-refused')
+    return CaseResult(None, hits, ('edge', repr(case['script']), case['maxsize'], case['reject_data_at'], case['reject_data_code'], case['reject_rcpt']), tags)
 
 
 def monitor_order(events, commands_seen):
@@ -150,6 +267,8 @@ def stock_replies():
 
 
 def run_case(case, model):
+    if case.get('kind') == 'edge':
+        return run_edge(case, model)
     if not _STOCK:
         _STOCK.update(stock_replies())
     cfg = CONFIGS[case['cfg']]
